@@ -352,9 +352,10 @@ def es5Order (m : String) (r : Run) (d : Done) : Option Nat :=
   let all := List.range (r.args.length + 1)
   let opt (k : Nat) : List Nat := if present r k then [k + 1] else []
   match m with
-  | "charAt" | "charCodeAt" => inOrder ([0] ++ opt 0) d
+  | "charAt" | "charCodeAt" => inOrder [0, 1] d                 -- ToInteger(pos) is applied to whatever was passed
   | "concat" => inOrder all d
-  | "indexOf" | "lastIndexOf" => inOrder ([0, 1] ++ opt 1) d
+  | "indexOf" => inOrder ([0, 1] ++ (if r.args.length ≥ 2 then [2] else [])) d   -- ToInteger(position), undefined included
+  | "lastIndexOf" => inOrder ([0, 1] ++ opt 1) d
   | "localeCompare" => inOrder [0, 1] d
   | "slice" | "substring" | "substr" => inOrder ([0, 1] ++ opt 1) d
   | "split" => inOrder ([0] ++ opt 1 ++ opt 0) d
